@@ -853,12 +853,17 @@ class Libs:
         if isinstance(x, Sym):
             return x.like(np.flip(x.arr, axis=tuple(dims)))
         r = x
+        if isinstance(dims, int):
+            dims = [dims]
         for d in dims:
             d = d % x.ndim
             n = x.dims[d][1]
             if x.dims[d][0] != 'S':
-                raise AnalysisError('unsupported', 'flip over an enumerated dim')
-            r = ops.gather_axis(r, d, list(range(n - 1, -1, -1)))
+                idx = [slice(None)] * x.ndim
+                idx[d] = list(range(n - 1, -1, -1))
+                r = r[tuple(idx)]
+            else:
+                r = ops.gather_axis(r, d, list(range(n - 1, -1, -1)))
         return r
 
     # --------------------------------------------------------------- numpy
